@@ -1,7 +1,7 @@
 (* C12 — property theorems only.  Each is closed by [exact <lemma>] and followed by
    Print Assumptions; the statements are pinned here so they cannot be quietly weakened. *)
-From FB Require Import C12.Model C12.TheoryTree C12.TheoryOrd C12.TheoryDet C12.TheoryMembers C12.TheoryPlace C12.TheoryTok
-  C12.TheoryLines C12.TheoryRT C12.TheoryFuel C12.Theory.
+From FB Require Import C12.Model C12.ModelForest C12.TheoryTree C12.TheoryOrd C12.TheoryDet C12.TheoryMembers C12.TheoryPlace C12.TheoryTok
+  C12.TheoryLines C12.TheoryRead C12.TheoryRT C12.TheoryFuel C12.TheoryExact C12.TheoryDir C12.Theory.
 From Coq Require Import Permutation Sorted.
 
 (* Th 1: writing a mapping set that satisfies the (decidable) hypotheses as one Enigma stream and
@@ -122,3 +122,178 @@ Print Assumptions C12_index_roundtrip.
 Theorem C12_examples : nonvacuous.
 Proof. exact nonvacuous_holds. Qed.
 Print Assumptions C12_examples.
+
+(* ------------------------------------------------------------------------------------------ *)
+(* Round 4: orphan chains, reader exactness, directory form *)
+
+(* Th 3a: a class whose direct outer class is not in the set (or that is no inner class) starts its own
+   file — named after its target, else source, name —, is the first class written there, at
+   indentation 0, and its CLASS line carries its FULL names.  No hypothesis on further-out classes:
+   with A and A$B$C in the set and A$B absent, A$B$C is not written below A *)
+Theorem C12_orphan_own_file : forall M fs c, keys_nodup M -> files M = Ok fs -> In c M -> parent_in M c = None ->
+  In (file_name c, c) fs
+  /\ (exists tl, tree_nodes M c = Ok ((c, O) :: tl))
+  /\ (forall ls, write_class c 0 = Ok ls -> exists tl, ls = class_line 0 (cls_key c) (cls_dst c) :: tl).
+Proof. exact orphan_own_file. Qed.
+Print Assumptions C12_orphan_own_file.
+
+Theorem C12_orphan_inner_is_root : forall M c p i, split_inner (cls_key c) = Some (p, i) -> has_key M p = false ->
+  parent_in M c = None /\ chain_depth M (cls_key c) = O.
+Proof. exact orphan_inner_is_root. Qed.
+Print Assumptions C12_orphan_inner_is_root.
+
+(* Th 2a: which file: a class at indentation dx is in the file of the class reached from it by dx parent
+   steps inside the set; that class has no parent in the set and heads the file at indentation 0 *)
+Theorem C12_placement : forall M fs nodes, keys_nodup M -> files M = Ok fs -> file_nodes M fs = Ok nodes ->
+  forall nc ns x dx, In (nc, ns) (combine fs nodes) -> In (x, dx) ns ->
+    In x M /\ anc M dx (cls_key x) = Some (cls_key (snd nc)) /\ parent_in M (snd nc) = None
+    /\ fst nc = file_name (snd nc) /\ exists tl, ns = (snd nc, O) :: tl.
+Proof. exact placement. Qed.
+Print Assumptions C12_placement.
+
+(* Th 3b: nesting in the TEXT mirrors source-name nesting: the token lines of what write_all writes are, file after
+   file in sorted order, for every class in pre-order of the tree of present parents: its CLASS line (e_head: indentation
+   = number of present ancestors, names shortened to the part after the last `$` below a parent, full at 0), then its
+   comment, sorted fields, sorted methods with sorted parameters (e_body); every class exactly once *)
+Theorem C12_written_text_lines : forall M, enigma_okb M = true ->
+  exists fs text, files M = Ok fs /\ write_all M = Ok text
+    /\ elines text = flat_map (fun cd => e_class (fst cd) (snd cd)) (TheoryTree.forest M (map snd fs))
+    /\ (forall x dx, In (x, dx) (TheoryTree.forest M (map snd fs)) -> dx = chain_depth M (cls_key x))
+    /\ Permutation M (map fst (TheoryTree.forest M (map snd fs))).
+Proof. exact written_text_lines. Qed.
+Print Assumptions C12_written_text_lines.
+
+(* the single files: write_one succeeds exactly for the file names of the parent-free classes and writes that class's tree *)
+Theorem C12_write_one_iff : forall M fs name t, files M = Ok fs ->
+  (write_one M name = Ok t <-> exists c, In (name, c) fs /\ write_tree M c = Ok t).
+Proof. exact write_one_iff. Qed.
+Print Assumptions C12_write_one_iff.
+
+(* Th 6: the reader IS the structural decoder, on EVERY text (accepted or not): group the token lines
+   into the forest their indentation describes (a line belongs to the nearest preceding line indented
+   one step less; a line that jumps deeper is an error), then walk that forest *)
+Theorem C12_read_structural : forall acc text, read_into acc text = read_struct acc text.
+Proof. exact read_into_struct. Qed.
+Print Assumptions C12_read_structural.
+
+(* grouping is lossless and unambiguous: the forest flattens back to exactly the lines, every node at
+   its depth, and there is only one such forest *)
+Theorem C12_forest_of_sound : forall ls f, forest_of ls = Some f -> ls = flatten f /\ depth_ok 0 f.
+Proof. exact forest_of_sound. Qed.
+Print Assumptions C12_forest_of_sound.
+
+Theorem C12_forest_of_complete : forall f, depth_ok 0 f -> forest_of (flatten f) = Some f.
+Proof. exact forest_of_flatten. Qed.
+Print Assumptions C12_forest_of_complete.
+
+Theorem C12_forest_unique : forall d f f' rest rest',
+  depth_ok d f -> depth_ok d f' -> stops d rest -> stops d rest' ->
+  flatten f ++ rest = flatten f' ++ rest' -> f = f' /\ rest = rest'.
+Proof. exact forest_unique. Qed.
+Print Assumptions C12_forest_unique.
+
+(* Th 7: every ACCEPTED text is decoded to the classes already there plus the check-free decoding of
+   its forest: one class per CLASS line (nested ones first), under the names of the CLASS lines it is
+   nested in, with the fields / methods / parameters / comments of the lines directly below it; and
+   every tag stands where it may stand (shape_root: unknown tags, members at the top level, lines
+   below a COMMENT are refused) *)
+Theorem C12_read_exact : forall acc text out, read_into acc text = Ok out ->
+  exists f, elines text = flatten f /\ depth_ok 0 f /\ shape_root f = true /\ out = acc ++ classes_of None f.
+Proof. exact read_exact. Qed.
+Print Assumptions C12_read_exact.
+
+(* no loss, no merge: as many classes / fields / methods / parameters are added as the text has
+   CLASS / FIELD / METHOD / ARG lines *)
+Theorem C12_read_counts : forall acc text out, read_into acc text = Ok out ->
+  length out = (length acc + count_tag s_CLASS (elines text))%nat
+  /\ nfields out = (nfields acc + count_tag s_FIELD (elines text))%nat
+  /\ nmeths out = (nmeths acc + count_tag s_METHOD (elines text))%nat
+  /\ nparams out = (nparams acc + count_tag s_ARG (elines text))%nat.
+Proof. exact read_counts. Qed.
+Print Assumptions C12_read_counts.
+
+(* no re-parenting: a class decoded from below a CLASS line has that line's source name in front of its own *)
+Theorem C12_nested_keys_prefixed : forall f ps pd,
+  Forall (fun c => exists s, cls_key c = ps ++ cDOLLAR :: s) (classes_of (Some (ps, pd)) f).
+Proof. exact nested_keys_prefixed. Qed.
+Print Assumptions C12_nested_keys_prefixed.
+
+(* duplicates are refused, never merged: whatever is read has unique keys at every level … *)
+Theorem C12_read_keys_strict : forall acc text out, strict_keys acc -> read_into acc text = Ok out -> strict_keys out.
+Proof. exact read_keys_strict. Qed.
+Print Assumptions C12_read_keys_strict.
+
+(* … so a text whose decoding would repeat a class key (also one that is already there, also a nested
+   class spelled `A$B` at the top level) is an error *)
+Theorem C12_read_dup_refused : forall acc text f, keys_nodup acc -> Forall class_keys_strict acc ->
+  elines text = flatten f -> depth_ok 0 f ->
+  ~ NoDup (map cls_key (acc ++ classes_of None f)) -> read_into acc text = Err.
+Proof. exact read_dup_refused. Qed.
+Print Assumptions C12_read_dup_refused.
+
+(* the hypothesis on comments, written out (pinned so that it cannot quietly become narrower): any text without
+   TAB, VT, FF, CR — the empty comment, a trailing line break, blank lines, leading spaces, `#` are inside *)
+Theorem C12_doc_hyp_spec : docb None = true /\ forall d, docb (Some d) = forallb (fun c => negb (mem_N c [9; 11; 12; 13])) d.
+Proof. exact doc_hyp_spec. Qed.
+Print Assumptions C12_doc_hyp_spec.
+
+(* the comment layer of Th 1 in isolation, for every such comment at every indentation: one COMMENT line per
+   `split('\n')` part (a trailing line break gives a last bare line, the empty comment exactly one), read back to
+   exactly that comment *)
+Theorem C12_comment_roundtrip : forall ind doc rest, docb doc = true -> stops ind rest ->
+  filter_map enigma_line (comment_lines ind doc) = e_comments ind doc
+  /\ forallb line_ok (comment_lines ind doc) = true
+  /\ length (comment_lines ind doc) = match doc with Some d => length (split_on cLF d) | None => O end
+  /\ comments_loop ind None (e_comments ind doc ++ rest) = Ok (doc, rest).
+Proof. exact comment_roundtrip. Qed.
+Print Assumptions C12_comment_roundtrip.
+
+(* Th 8: the directory form.  Inside the hypotheses of the round trip the directory hypothesis is
+   nothing but the file system's own limits (no NUL, path components of at most 255 bytes) … *)
+Theorem C12_dir_ok_iff_fs_ok : forall M, enigma_okb M = true -> dir_okb M = fs_okb M.
+Proof. exact dir_ok_iff_fs_ok. Qed.
+Print Assumptions C12_dir_ok_iff_fs_ok.
+
+Theorem C12_read_write_dir_fs : forall M, enigma_okb M = true -> fs_okb M = true ->
+  exists d back, write_dir M = Ok d /\ read_dir d = Ok back /\ classes_sim back (enigma_norm M).
+Proof. exact read_write_dir_fs. Qed.
+Print Assumptions C12_read_write_dir_fs.
+
+(* … and when the file system refuses a name, enigma_dir::write is an error (no class silently dropped) *)
+Theorem C12_write_dir_fs_err : forall M, is_ok (files M) = true -> fs_okb M = false -> write_dir M = Err.
+Proof. exact write_dir_fs_err. Qed.
+Print Assumptions C12_write_dir_fs_err.
+
+(* every path enigma_dir::write creates lies inside the target directory (relative, no `.` / `..`
+   component) — for ANY mapping set, also one with names only the unchecked constructors can build *)
+Theorem C12_write_dir_inside : forall M d, write_dir M = Ok d -> forall p body, In (p, body) d -> path_inside p = true.
+Proof. exact write_dir_inside. Qed.
+Print Assumptions C12_write_dir_inside.
+
+(* the sorted directory walk: whatever order the operating system lists the entries in, the same files are
+   read in the same (ascending, component by component) order, so the result is the same *)
+Theorem C12_read_dir_order_independent : forall d d', NoDup (map fst d) -> Permutation d d' -> read_dir d = read_dir d'.
+Proof. exact read_dir_order_independent. Qed.
+Print Assumptions C12_read_dir_order_independent.
+
+Theorem C12_read_dir_sorted : forall d,
+  read_dir d = read_files [] (isort path_leb (filter (fun pc => is_mapping_file (fst pc)) d))
+  /\ Sorted (fun a b => path_leb a b = true) (isort path_leb (filter (fun pc => is_mapping_file (fst pc)) d)).
+Proof. exact read_dir_sorted. Qed.
+Print Assumptions C12_read_dir_sorted.
+
+Theorem C12_read_path_spec : forall p, read_path p =
+  match p with
+  | NoSuchPath => Err
+  | PlainFile name content => if is_mapping_file name then read_all content else Ok []
+  | Directory d => read_dir d
+  end.
+Proof. exact read_path_spec. Qed.
+Print Assumptions C12_read_path_spec.
+
+(* non-vacuity of the round-4 theorems: structural decoding of a nested text computed; duplicate (flat and
+   nested), unknown tag, indentation jump refused; file-system limits at 247/248 bytes and NUL; `..` and
+   absolute file names refused; missing path, single file, invalid UTF-8 *)
+Theorem C12_examples2 : nonvacuous2.
+Proof. exact nonvacuous2_holds. Qed.
+Print Assumptions C12_examples2.
